@@ -266,7 +266,15 @@ def opRb (x : B) : Outcome String := do
         show_ ((Builder.withAddresses (vcByte h.version h.command) h.protocol h.addresses).run
           [.writePayload (.tlvSection tb)])
       else "na"
-    pure s!"hdr={hexOf h.header} raw={show_ raw} sec={show_ sec} items={it} addr={addr}"
+    let braw := (Builder.new vc afp).run [.writePayloads [.slice ab, .slice tb]]
+    let baddr := if h.addressFamily ≠ .unspec then
+        (if allOk then
+          show_ ((Builder.withAddresses (vcByte h.version h.command) h.protocol h.addresses).run
+            [.writePayloads (items.filterMap (fun i => match i with
+              | .ok t => some (.tlv t.kind t.value) | .error _ => none))])
+        else "na")
+      else "na"
+    pure s!"hdr={hexOf h.header} raw={show_ raw} sec={show_ sec} items={it} addr={addr} braw={show_ braw} baddr={baddr}"
 
 -- ---------------------------------------------------------------- tables
 
